@@ -1444,6 +1444,13 @@ class Exec:
         body = f['body']
         nloc = len(f['locals'])
         frame = Frame(f, [Cell() for _ in range(nloc)])
+        # locals of a function-item type are zero-sized and may be borrowed without ever being assigned
+        zl = f.get('_fndef_locals')
+        if zl is None:
+            zl = [(i, t) for i, t in enumerate(f['locals']) if i > f['arg_count'] and self.p.kind(t)[0] == 'fndef']
+            f['_fndef_locals'] = zl
+        for i, t in zl:
+            frame.locals[i].v = FnDefV(t)
         if len(args) != f['arg_count']:
             raise Unsupported(f"arity {f['name']}: got {len(args)} want {f['arg_count']}")
         for i, a in enumerate(args):
